@@ -9,6 +9,9 @@
 //       member lists in storage order).  The OCaml driver replays the `op` lines on the extracted
 //       model and must print the identical file.
 //
+//   C09_wf ops <file> <outfile>
+//       replays given operation sequences (corpus, replays) on real nodes; same output format.
+//
 //   C09_wf design <programs> <outdir> <variants def,min> <extra 0|1>
 //       T2: interprets design programs through the real frontend; dumps the graph after every
 //       top-level construction statement, at every pass boundary of the real post processors
@@ -171,180 +174,231 @@ static void dumpGraph(Circuit &c, std::ostream &o, bool withKind) {
 }
 
 // ------------------------------------------------------------------------------------------------
-// T1: random operation sequences
+// T1: operation sequences on real nodes
+//   op syntax (one line each; the OCaml driver parses the same lines):
+//     create <nin> <nout> <nclk> <s|r|g> <group|->     s = Node_Signal, r = Node_Register, g = TestNode
+//     addgroup <parent>      createclock
+//     connect <n> <i> <m.p|->      (NodeIO::rewireInput)     connectp <n> <i> <m.p|->  (NodeIO::connectInput as a node sees it)
+//     disconnect <n> <i>     sigconnect <n> <m.p|->     settype <n> <o> <type> <width>
+//     resizein <n> <k>   resizeout <n> <k>   bypass <n> <o> <i>   move <n> <group|->
+//     addclock <n> <clock|->   attach <n> <cp> <clock|->   setclock <n> <clock|->   detach <n> <cp>
+//     addref <n>   removeref <n>   destroy <n>
 // ------------------------------------------------------------------------------------------------
 struct Seq {
 	Circuit c;
-	vh::Rng rng;
 	std::ostream &o;
 	std::vector<NodeGroup*> groups;
 	std::vector<hlim::Clock*> clocks;
 	std::map<uint64_t, std::vector<NodePtr<BaseNode>>> refs;
-	size_t maxNodes;
 	std::map<std::string, size_t> &hist;
 
-	Seq(uint64_t seed, std::ostream &o, size_t maxNodes, std::map<std::string, size_t> &hist)
-		: rng(seed), o(o), maxNodes(maxNodes), hist(hist) { groups.push_back(c.getRootNodeGroup()); }
+	Seq(std::ostream &o, std::map<std::string, size_t> &hist) : o(o), hist(hist) { groups.push_back(c.getRootNodeGroup()); }
 
 	std::vector<BaseNode*> nodes() { std::vector<BaseNode*> r; for (auto &n : c.getNodes()) r.push_back(n.get()); std::sort(r.begin(), r.end(), [](BaseNode *a, BaseNode *b){ return a->getId() < b->getId(); }); return r; }
-	BaseNode *pickNode() { auto v = nodes(); return v.empty() ? nullptr : v[rng.below(v.size())]; }
+	BaseNode *byId(uint64_t id) { for (auto &n : c.getNodes()) if (n->getId() == id) return n.get(); return nullptr; }
+	NodeGroup *groupById(uint64_t id) { for (auto *g : groups) if (g->getId() == id) return g; return nullptr; }
+	hlim::Clock *clockById(uint64_t id) { for (auto *k : clocks) if (k->getId() == id) return k; return nullptr; }
 	static std::string np(const NodePort &p) { return p.node ? std::to_string(p.node->getId()) + "." + std::to_string(p.port) : std::string("-"); }
 	static bool isSig(BaseNode *n) { return dynamic_cast<Node_Signal*>(n) != nullptr; }
 	static bool isTest(BaseNode *n) { return dynamic_cast<TestNode*>(n) != nullptr; }
+
+	struct Bad {};   // malformed / out-of-contract op in a hand written sequence: not executed
+	NodePort parsePort(const std::string &s) {
+		if (s == "-") return {};
+		auto d = s.find('.'); if (d == std::string::npos) throw Bad{};
+		BaseNode *n = byId(std::stoull(s.substr(0, d))); size_t p = std::stoull(s.substr(d + 1));
+		if (!n || p >= n->getNumOutputPorts()) throw Bad{};
+		return { .node = n, .port = p };
+	}
+	BaseNode *node(const std::string &s) { BaseNode *n = byId(std::stoull(s)); if (!n) throw Bad{}; return n; }
+	NodeGroup *ogroup(const std::string &s) { if (s == "-") return nullptr; auto *g = groupById(std::stoull(s)); if (!g) throw Bad{}; return g; }
+	hlim::Clock *oclock(const std::string &s) { if (s == "-") return nullptr; auto *k = clockById(std::stoull(s)); if (!k) throw Bad{}; return k; }
+
+	// performs one op through the real interface; returns false if the call threw / is out of contract
+	bool perform(const std::vector<std::string> &w) {
+		const std::string &op = w.at(0);
+		try {
+			if (op == "create") {
+				size_t ni = std::stoull(w.at(1)), no = std::stoull(w.at(2)), nc = std::stoull(w.at(3));
+				NodeGroup *g = ogroup(w.at(5));
+				BaseNode *n;
+				if (w.at(4) == "s") { if (ni != 1 || no != 1 || nc != 0) throw Bad{}; n = c.createNode<Node_Signal>(); }
+				else if (w.at(4) == "r") { if (ni != 3 || no != 1 || nc != 1) throw Bad{}; n = c.createNode<Node_Register>(); }
+				else n = c.createNode<TestNode>(ni, no, nc);
+				n->moveToGroup(g);
+			} else if (op == "addgroup") { NodeGroup *p = ogroup(w.at(1)); if (!p) throw Bad{}; groups.push_back(p->addChildNodeGroup(NodeGroupType::ENTITY, "g")); }
+			else if (op == "createclock") clocks.push_back(c.createClock<RootClock>("clk", ClockRational(100, 1)));
+			else if (op == "connect" || op == "connectp") {
+				BaseNode *n = node(w.at(1)); size_t i = std::stoull(w.at(2)); NodePort src = parsePort(w.at(3));
+				if (i >= n->getNumInputPorts()) throw Bad{};
+				if (op == "connectp") { if (!isTest(n)) throw Bad{}; static_cast<TestNode*>(n)->connectInput(i, src); } else n->rewireInput(i, src);
+			} else if (op == "disconnect") {
+				BaseNode *n = node(w.at(1)); size_t i = std::stoull(w.at(2));
+				if (i >= n->getNumInputPorts()) throw Bad{};
+				if (isSig(n)) static_cast<Node_Signal*>(n)->disconnectInput(); else if (isTest(n)) static_cast<TestNode*>(n)->disconnectInput(i); else throw Bad{};
+			} else if (op == "sigconnect") {
+				BaseNode *n = node(w.at(1)); NodePort src = parsePort(w.at(2));
+				if (!isSig(n)) throw Bad{};
+				static_cast<Node_Signal*>(n)->connectInput(src);
+			} else if (op == "settype") {
+				BaseNode *n = node(w.at(1)); size_t p = std::stoull(w.at(2));
+				ConnectionType t; t.type = (ConnectionType::Type)std::stoi(w.at(3)); t.width = std::stoull(w.at(4));
+				if (p >= n->getNumOutputPorts()) throw Bad{};
+				if (isSig(n)) static_cast<Node_Signal*>(n)->setConnectionType(t); else if (isTest(n)) static_cast<TestNode*>(n)->setOutputConnectionType(p, t); else throw Bad{};
+			} else if (op == "resizein") { BaseNode *n = node(w.at(1)); if (!isTest(n)) throw Bad{}; static_cast<TestNode*>(n)->resizeInputs(std::stoull(w.at(2))); }
+			else if (op == "resizeout") { BaseNode *n = node(w.at(1)); if (!isTest(n)) throw Bad{}; static_cast<TestNode*>(n)->resizeOutputs(std::stoull(w.at(2))); }
+			else if (op == "bypass") {
+				BaseNode *n = node(w.at(1)); size_t p = std::stoull(w.at(2)), i = std::stoull(w.at(3));
+				if (p >= n->getNumOutputPorts() || i >= n->getNumInputPorts()) throw Bad{};
+				NodePort src = n->getDriver(i);
+				if (src.node == n && src.port == p) throw Bad{};     // would never terminate
+				n->bypassOutputToInput(p, i);
+			} else if (op == "move") { BaseNode *n = node(w.at(1)); n->moveToGroup(ogroup(w.at(2))); }
+			else if (op == "addclock") { BaseNode *n = node(w.at(1)); n->addClock(oclock(w.at(2))); }
+			else if (op == "attach") { BaseNode *n = node(w.at(1)); size_t cp = std::stoull(w.at(2)); if (cp >= n->getClocks().size()) throw Bad{}; n->attachClock(oclock(w.at(3)), cp); }
+			else if (op == "setclock") { auto *r = dynamic_cast<Node_Register*>(node(w.at(1))); if (!r) throw Bad{}; r->setClock(oclock(w.at(2))); }
+			else if (op == "detach") { BaseNode *n = node(w.at(1)); size_t cp = std::stoull(w.at(2)); if (cp >= n->getClocks().size()) throw Bad{}; n->detachClock(cp); }
+			else if (op == "addref") { BaseNode *n = node(w.at(1)); refs[n->getId()].emplace_back(n); }
+			else if (op == "removeref") { BaseNode *n = node(w.at(1)); auto &v = refs[n->getId()]; if (v.empty()) throw Bad{}; v.pop_back(); }
+			else if (op == "destroy") {
+				BaseNode *n = node(w.at(1));
+				if (n->hasRef()) throw Bad{};                     // the passes skip referenced nodes; the destructor asserts
+				auto &v = c.getNodes();                           // the erase idiom of the cull passes
+				for (size_t i = 0; i < v.size(); i++) if (v[i].get() == n) {
+					if (i + 1 != v.size()) v[i] = std::move(v.back());
+					v.pop_back();
+					break;
+				}
+			} else throw Bad{};
+			return true;
+		} catch (const gtry::utils::InternalError &) { return false; }
+		  catch (const Bad &) { return false; }
+		  catch (const std::out_of_range &) { return false; }
+		  catch (const std::invalid_argument &) { return false; }
+	}
+
+	bool run(const std::string &text) {
+		std::istringstream ls(text); std::vector<std::string> w; std::string t;
+		while (ls >> t) if (t != "!throw") w.push_back(t);
+		if (w.empty()) return false;
+		bool ok = perform(w);
+		std::string canon; for (auto &x : w) canon += (canon.empty() ? "" : " ") + x;
+		o << "op " << canon << (ok ? "" : " !throw") << "\n";
+		hist[w[0]]++;
+		if (!ok) hist["(refused)"]++;
+		dumpGraph(c, o, false);
+		o << "end\n";
+		return ok;
+	}
+};
+
+// the generator only CHOOSES the next call (looking at the real objects); Seq::run performs it
+struct Gen {
+	Seq &q;
+	vh::Rng rng;
+	size_t maxNodes;
+	Gen(Seq &q, uint64_t seed, size_t maxNodes) : q(q), rng(seed), maxNodes(maxNodes) {}
 
 	ConnectionType randType() {
 		ConnectionType t;
 		uint64_t r = rng.below(5);
 		if (r == 0) { t.type = ConnectionType::BOOL; t.width = 1; }
-		else { t.type = ConnectionType::BITVEC; t.width = r == 1 ? 0 : r == 2 ? 8 : r == 3 ? 8 : 64; }
+		else { t.type = ConnectionType::BITVEC; t.width = r == 1 ? 0 : r == 4 ? 64 : 8; }
 		return t;
 	}
 	NodePort randSrc(bool allowNull, const ConnectionType *want = nullptr) {
 		if (allowNull && rng.below(6) == 0) return {};
 		std::vector<NodePort> cand;
-		for (auto *n : nodes()) for (size_t p = 0; p < n->getNumOutputPorts(); p++)
+		for (auto *n : q.nodes()) for (size_t p = 0; p < n->getNumOutputPorts(); p++)
 			if (!want || n->getOutputConnectionType(p) == *want) cand.push_back({ .node = n, .port = p });
 		if (cand.empty()) return {};
 		return cand[rng.below(cand.size())];
 	}
-	// requirement of a Node_Signal: driver type == own output type (the harness only emits calls that respect it)
+	// requirement of a Node_Signal: driver type == own output type (the generator only chooses calls that respect it,
+	// or calls the code refuses anyway)
 	static bool sigOkWith(BaseNode *sig, const NodePort &drv) {
 		if (drv.node == nullptr) return true;
 		return drv.node->getOutputConnectionType(drv.port) == sig->getOutputConnectionType(0);
 	}
 
-	void emit(const std::string &s, bool thrown = false) {
-		o << "op " << s << (thrown ? " !throw" : "") << "\n";
-		hist[s.substr(0, s.find(' '))]++;
-		if (thrown) hist["(throws)"]++;
-		dumpGraph(c, o, false);
-		o << "end\n";
-	}
-
-	bool step() {
+	std::string choose() {
 		uint64_t r = rng.below(100);
-		auto all = nodes();
-		if (all.size() < 3 || (r < 14 && all.size() < maxNodes)) {           // ---- create
+		auto all = q.nodes();
+		auto S = [](size_t v) { return std::to_string(v); };
+		if (all.size() < 3 || (r < 9 && all.size() < maxNodes)) {
 			uint64_t k = rng.below(10);
-			NodeGroup *g = rng.below(8) == 0 ? nullptr : groups[rng.below(groups.size())];
-			std::string gs = g ? std::to_string(g->getId()) : "-";
-			BaseNode *n; std::string desc;
-			if (k < 4) { n = c.createNode<Node_Signal>(); desc = "1 1 0 s"; }
-			else if (k < 5) { n = c.createNode<Node_Register>(); desc = "3 1 1 g"; }
-			else { size_t ni = rng.below(4), no = rng.below(3), nc = rng.below(3) == 0 ? 1 + rng.below(2) : 0; if (ni + no == 0) no = 1;
-			       n = c.createNode<TestNode>(ni, no, nc); desc = std::to_string(ni) + " " + std::to_string(no) + " " + std::to_string(nc) + " g"; }
-			n->moveToGroup(g);
-			emit("create " + desc + " " + gs);
-			return true;
+			NodeGroup *g = rng.below(8) == 0 ? nullptr : q.groups[rng.below(q.groups.size())];
+			std::string gs = g ? S(g->getId()) : "-";
+			if (k < 4) return "create 1 1 0 s " + gs;
+			if (k < 5) return "create 3 1 1 r " + gs;
+			size_t ni = rng.below(4), no = rng.below(3), nc = rng.below(3) == 0 ? 1 + rng.below(2) : 0; if (ni + no == 0) no = 1;
+			return "create " + S(ni) + " " + S(no) + " " + S(nc) + " g " + gs;
 		}
-		if (r < 17) { NodeGroup *p = groups[rng.below(groups.size())]; if (groups.size() >= 5) return false;
-			groups.push_back(p->addChildNodeGroup(rng.coin() ? NodeGroupType::ENTITY : NodeGroupType::AREA, "g"));
-			emit("addgroup " + std::to_string(p->getId())); return true; }
-		if (r < 19) { if (clocks.size() >= 3) return false;
-			clocks.push_back(c.createClock<RootClock>("clk", ClockRational(100, 1)));
-			emit("createclock"); return true; }
-		BaseNode *n = pickNode();
-		if (!n) return false;
-		std::string id = std::to_string(n->getId());
-		if (r < 40) {                                                         // ---- connect / rewireInput
-			if (n->getNumInputPorts() == 0) return false;
+		if (r < 11) { if (q.groups.size() >= 5) return ""; return "addgroup " + S(q.groups[rng.below(q.groups.size())]->getId()); }
+		if (r < 13) { if (q.clocks.size() >= 3) return ""; return "createclock"; }
+		BaseNode *n = all[rng.below(all.size())];
+		std::string id = S(n->getId());
+		if (r < 36) {                                                         // connect / rewireInput
+			if (n->getNumInputPorts() == 0) return "";
 			size_t i = rng.below(n->getNumInputPorts());
-			if (isSig(n)) {
-				if (rng.below(3)) {   // Node_Signal::connectInput (may legitimately refuse)
-					NodePort src = randSrc(true);
-					bool thrown = false;
-					try { static_cast<Node_Signal*>(n)->connectInput(src); } catch (const gtry::utils::InternalError &) { thrown = true; }
-					emit("sigconnect " + id + " " + np(src), thrown);
-					return true;
-				}
+			if (Seq::isSig(n)) {
+				if (rng.below(3)) return "sigconnect " + id + " " + Seq::np(randSrc(true));   // may legitimately refuse
 				ConnectionType want = n->getOutputConnectionType(0);
-				NodePort src = randSrc(true, &want);
-				n->rewireInput(0, src);
-				emit("connect " + id + " 0 " + np(src));
-				return true;
+				return "connect " + id + " 0 " + Seq::np(randSrc(true, &want));
 			}
-			NodePort src = randSrc(true);
-			if (isTest(n) && rng.coin()) static_cast<TestNode*>(n)->connectInput(i, src); else n->rewireInput(i, src);
-			emit("connect " + id + " " + std::to_string(i) + " " + np(src));
-			return true;
+			return std::string(Seq::isTest(n) && rng.coin() ? "connectp " : "connect ") + id + " " + S(i) + " " + Seq::np(randSrc(true));
 		}
-		if (r < 50) {                                                         // ---- disconnect
-			if (isSig(n)) { static_cast<Node_Signal*>(n)->disconnectInput(); emit("disconnect " + id + " 0"); return true; }
-			if (isTest(n) && n->getNumInputPorts()) { size_t i = rng.below(n->getNumInputPorts()); static_cast<TestNode*>(n)->disconnectInput(i); emit("disconnect " + id + " " + std::to_string(i)); return true; }
-			return false;
+		if (r < 46) {                                                         // disconnect
+			if (Seq::isSig(n)) return "disconnect " + id + " 0";
+			if (Seq::isTest(n) && n->getNumInputPorts()) return "disconnect " + id + " " + S(rng.below(n->getNumInputPorts()));
+			return "";
 		}
-		if (r < 57) {                                                         // ---- setOutputConnectionType
-			if (n->getNumOutputPorts() == 0) return false;
+		if (r < 53) {                                                         // setOutputConnectionType
+			if (n->getNumOutputPorts() == 0) return "";
 			size_t p = rng.below(n->getNumOutputPorts());
 			ConnectionType t = randType();
-			bool thrown = false;
-			if (isSig(n)) {
-				if (!sigOkWith(n, n->getDriver(0)) ) return false;
+			if (Seq::isSig(n)) {
 				NodePort d = n->getDriver(0);
-				if (d.node && !(d.node->getOutputConnectionType(d.port) == t)) {
-					// would leave the signal with a driver of another type: only emit it when the code refuses it anyway
-					if (n->getDirectlyDriven(0).empty()) return false;
-				}
-				try { static_cast<Node_Signal*>(n)->setConnectionType(t); } catch (const gtry::utils::InternalError &) { thrown = true; }
-			} else if (isTest(n)) {
-				// consumers that are signals require their driver type: only change when no consumer (the code refuses otherwise)
-				try { static_cast<TestNode*>(n)->setOutputConnectionType(p, t); } catch (const gtry::utils::InternalError &) { thrown = true; }
-			} else return false;
-			emit("settype " + id + " " + std::to_string(p) + " " + std::to_string((int)t.type) + " " + std::to_string(t.width), thrown);
-			return true;
+				// would leave the signal with a driver of another type: only choose it when the code refuses it anyway
+				if (d.node && !(d.node->getOutputConnectionType(d.port) == t) && n->getDirectlyDriven(0).empty()) return "";
+			} else if (!Seq::isTest(n)) return "";
+			return "settype " + id + " " + S(p) + " " + S((int)t.type) + " " + S(t.width);
 		}
-		if (r < 63) {                                                         // ---- resize
-			if (!isTest(n)) return false;
-			auto *t = static_cast<TestNode*>(n);
-			if (rng.coin()) { size_t k = rng.below(5); t->resizeInputs(k); emit("resizein " + id + " " + std::to_string(k)); }
-			else { size_t k = rng.below(4); t->resizeOutputs(k); emit("resizeout " + id + " " + std::to_string(k)); }
-			return true;
+		if (r < 60) {                                                         // resize
+			if (!Seq::isTest(n)) return "";
+			if (rng.coin()) return "resizein " + id + " " + S(rng.below(5));
+			return "resizeout " + id + " " + S(rng.below(4));
 		}
-		if (r < 71) {                                                         // ---- bypassOutputToInput
-			if (n->getNumInputPorts() == 0 || n->getNumOutputPorts() == 0) return false;
+		if (r < 69) {                                                         // bypassOutputToInput
+			if (n->getNumInputPorts() == 0 || n->getNumOutputPorts() == 0) return "";
 			size_t i = rng.below(n->getNumInputPorts()), p = rng.below(n->getNumOutputPorts());
 			NodePort src = n->getDriver(i);
-			if (src.node == n && src.port == p) return false;       // would never terminate: outside the contract
-			for (auto &cns : n->getDirectlyDriven(p)) if (isSig(cns.node) && !sigOkWith(cns.node, src)) return false;
-			n->bypassOutputToInput(p, i);
-			emit("bypass " + id + " " + std::to_string(p) + " " + std::to_string(i));
-			return true;
+			if (src.node == n && src.port == p) return "";           // would never terminate: outside the contract
+			for (auto &cns : n->getDirectlyDriven(p)) if (Seq::isSig(cns.node) && !sigOkWith(cns.node, src)) return "";
+			return "bypass " + id + " " + S(p) + " " + S(i);
 		}
-		if (r < 79) {                                                         // ---- moveToGroup
-			NodeGroup *g = rng.below(10) == 0 ? nullptr : groups[rng.below(groups.size())];
-			n->moveToGroup(g);
-			emit("move " + id + " " + (g ? std::to_string(g->getId()) : std::string("-")));
-			return true;
+		if (r < 77) {                                                         // moveToGroup
+			NodeGroup *g = rng.below(10) == 0 ? nullptr : q.groups[rng.below(q.groups.size())];
+			return "move " + id + " " + (g ? S(g->getId()) : std::string("-"));
 		}
-		if (r < 89) {                                                         // ---- clocks
-			hlim::Clock *k = (clocks.empty() || rng.below(5) == 0) ? nullptr : clocks[rng.below(clocks.size())];
-			std::string ks = k ? std::to_string(k->getId()) : "-";
-			uint64_t w = rng.below(4);
-			if (w == 0 && n->getClocks().size() < 3) { n->addClock(k); emit("addclock " + id + " " + ks); return true; }
-			if (n->getClocks().empty()) return false;
+		if (r < 89) {                                                         // clocks
+			hlim::Clock *k = (q.clocks.empty() || rng.below(5) == 0) ? nullptr : q.clocks[rng.below(q.clocks.size())];
+			std::string ks = k ? S(k->getId()) : "-";
+			uint64_t w = rng.below(5);
+			if (w == 0 && n->getClocks().size() < 3) return "addclock " + id + " " + ks;
+			if (n->getClocks().empty()) return rng.below(3) == 0 ? "addclock " + id + " " + ks : std::string("");
 			size_t cp = rng.below(n->getClocks().size());
-			if (w == 3) { n->detachClock(cp); emit("detach " + id + " " + std::to_string(cp)); return true; }
-			if (dynamic_cast<Node_Register*>(n) && rng.coin()) { static_cast<Node_Register*>(n)->setClock(k); emit("attach " + id + " 0 " + ks); return true; }
-			n->attachClock(k, cp); emit("attach " + id + " " + std::to_string(cp) + " " + ks);
-			return true;
+			if (w >= 3) return "detach " + id + " " + S(cp);
+			if (dynamic_cast<Node_Register*>(n) && rng.coin()) return "setclock " + id + " " + ks;
+			return "attach " + id + " " + S(cp) + " " + ks;
 		}
-		if (r < 94) {                                                         // ---- NodePtr
-			auto &v = refs[n->getId()];
-			if (!v.empty() && rng.coin()) { v.pop_back(); emit("removeref " + id); }
-			else { v.emplace_back(n); emit("addref " + id); }
-			return true;
+		if (r < 94) {                                                         // NodePtr
+			auto it = q.refs.find(n->getId());
+			if (it != q.refs.end() && !it->second.empty() && rng.below(3)) return "removeref " + id;
+			return "addref " + id;
 		}
-		{                                                                     // ---- destruction (as the cull passes do it)
-			if (n->hasRef()) return false;
-			auto &v = c.getNodes();
-			for (size_t i = 0; i < v.size(); i++) if (v[i].get() == n) {
-				if (i + 1 != v.size()) v[i] = std::move(v.back());
-				v.pop_back();
-				break;
-			}
-			emit("destroy " + id);
-			return true;
-		}
+		if (n->hasRef()) return "";                                           // destruction
+		return "destroy " + id;
 	}
 };
 
@@ -354,15 +408,31 @@ static int runNodeIO(size_t nseq, size_t nops, const std::string &outfile) {
 	std::map<std::string, size_t> hist;
 	for (size_t s = 0; s < nseq; s++) {
 		o << "seq " << s << "\n";
-		Seq q(seed * 7919 + s, o, 6 + (s % 10), hist);
+		Seq q(o, hist);
+		Gen g(q, seed * 7919 + s, 6 + (s % 10));
 		size_t done = 0, tries = 0;
-		while (done < nops && tries < nops * 20) { tries++; if (q.step()) done++; }
+		while (done < nops && tries < nops * 20) { tries++; std::string op = g.choose(); if (!op.empty()) { q.run(op); done++; } }
 		q.refs.clear();
 		o << "endseq\n";
 	}
 	std::cerr << "hist";
 	for (auto &kv : hist) std::cerr << " " << kv.first << "=" << kv.second;
 	std::cerr << "\n";
+	return 0;
+}
+
+// replays given sequences (corpus, --replay): lines `seq <k>` / `op ...` / `endseq`, everything else ignored
+static int runOps(const std::string &infile, const std::string &outfile) {
+	std::ifstream in(infile); std::ofstream o(outfile);
+	std::map<std::string, size_t> hist;
+	std::unique_ptr<Seq> q;
+	std::string line;
+	while (std::getline(in, line)) {
+		if (line.rfind("seq ", 0) == 0) { if (q) { q->refs.clear(); q.reset(); } o << line << "\n"; q = std::make_unique<Seq>(o, hist); }
+		else if (line.rfind("endseq", 0) == 0) { if (q) { q->refs.clear(); q.reset(); } o << "endseq\n"; }
+		else if (line.rfind("op ", 0) == 0 && q) q->run(line.substr(3));
+	}
+	if (q) { q->refs.clear(); q.reset(); }
 	return 0;
 }
 
@@ -393,7 +463,7 @@ static int runDesigns(const std::string &progfile, const std::string &outdir, co
 				while (pc < prog.stmts.size()) {
 					const auto &t = prog.stmts[pc];
 					std::string what = "construct:" + t[0];
-					if (t[0] == "if") { pc++; in.ifchain(prog, pc, in.asB(t[1]), 0); }
+					if (t[0] == "if") { pc++; in.ifchain(prog, pc, t[1], 0); }
 					else { in.stmt(t); pc++; }
 					if (v == "def") dump(design.getCircuit(), what);   // identical for both variants: dump once
 				}
@@ -426,6 +496,7 @@ int main(int argc, char **argv) {
 	if (argc < 2) { std::cerr << "usage\n"; return 2; }
 	std::string mode = argv[1];
 	if (mode == "nodeio" && argc >= 5) return runNodeIO(std::stoull(argv[2]), std::stoull(argv[3]), argv[4]);
+	if (mode == "ops" && argc >= 4) return runOps(argv[2], argv[3]);
 	if (mode == "design" && argc >= 6) return runDesigns(argv[2], argv[3], argv[4], atoi(argv[5]));
 	std::cerr << "usage\n";
 	return 2;
